@@ -217,4 +217,72 @@ theorem step_err_conn {ct : ConvTable} {fault : Option Nat} {r : Run} {s : Stmt}
     · rfl
     · simp at h
 
+/-! ## statement numbering -/
+
+theorem step_fault {ct : ConvTable} {fault : Option Nat} {r : Run} {s : Stmt} (h : (step ct fault r s).2 = none) :
+    fault ≠ some r.n := by
+  intro hf
+  unfold step at h
+  simp [hf] at h
+
+theorem execAll_none_nofault {ct : ConvTable} {fault : Option Nat} (l : List Stmt) : ∀ (r r' : Run),
+    execAll ct fault r l = (r', none) →
+    r'.n = r.n + l.length ∧ ∀ k, fault = some k → ¬ (r.n ≤ k ∧ k < r.n + l.length) := by
+  induction l with
+  | nil => intro r r' h; simp [execAll] at h; subst h; exact ⟨by simp, fun k _ hk => by simp at hk; omega⟩
+  | cons s rest ih =>
+    intro r r' h
+    simp only [execAll] at h
+    split at h
+    · cases h
+    · rename_i ra heq
+      have hs : (step ct fault r s).2 = none := by rw [heq]
+      have hnf := step_fault hs
+      have hn : ra.n = r.n + 1 := by have := step_n ct fault r s; rw [heq] at this; exact this
+      obtain ⟨h1, h2⟩ := ih ra r' h
+      refine ⟨by simp only [List.length_cons]; omega, ?_⟩
+      intro k hk hr
+      by_cases hk0 : k = r.n
+      · subst hk0; exact hnf hk
+      · exact h2 k hk ⟨by omega, by simp only [List.length_cons] at hr; omega⟩
+
+/-- the trace is indexed by statement number -/
+def Numbered (r : Run) : Prop := r.n = r.trace.length
+
+theorem step_numbered {ct : ConvTable} {fault : Option Nat} {r : Run} {s : Stmt} (h : Numbered r) :
+    Numbered (step ct fault r s).1 := by
+  unfold Numbered; rw [step_n, step_trace, h]; simp
+
+theorem execAll_numbered {ct : ConvTable} {fault : Option Nat} (l : List Stmt) : ∀ (r : Run), Numbered r →
+    Numbered (execAll ct fault r l).1 := by
+  induction l with
+  | nil => intro r h; simpa [execAll] using h
+  | cons s rest ih =>
+    intro r h
+    have h1 := step_numbered (ct := ct) (fault := fault) (s := s) h
+    simp only [execAll]
+    split
+    · rename_i r' e heq; rw [heq] at h1; exact h1
+    · rename_i r' heq; rw [heq] at h1; exact ih r' h1
+
+/-- a failing run over statements `f x` ends its trace with one of them -/
+theorem execAll_map_err_last {ct : ConvTable} {fault : Option Nat} {α : Type} (f : α → Stmt) (l : List α) :
+    ∀ (r r' : Run) (e : Err), execAll ct fault r (l.map f) = (r', some e) → ∃ x, r'.trace.getLast? = some (f x) := by
+  induction l with
+  | nil => intro r r' e h; simp [execAll] at h
+  | cons a rest ih =>
+    intro r r' e h
+    simp only [List.map_cons, execAll] at h
+    split at h
+    · rename_i ra ea heq
+      have hra : ra = r' := by cases h; rfl
+      subst hra
+      have ht : ra.trace = r.trace ++ [f a] := by
+        have := step_trace ct fault r (f a)
+        rw [heq] at this
+        exact this
+      exact ⟨a, by rw [ht]; simp⟩
+    · rename_i ra heq
+      exact ih ra r' e h
+
 end Lemmas.Batch
